@@ -336,7 +336,14 @@ fn e_sweep_dom<D: Dom>(cx: &RunCtx, a: &[Call], iso: &[String]) {
     if !cx.wants(D::EV.name()) {
         return;
     }
-    let probes: Vec<usize> = (0..a.len()).filter(|i| a[*i].ev == D::EV.name()).collect();
+    // probes: every call of the alphabet on the same evaluator, and three calls on each other evaluator
+    // (state shared between evaluators, e.g. in a common helper module)
+    let mut probes: Vec<usize> = (0..a.len()).filter(|i| a[*i].ev == D::EV.name()).collect();
+    for other in refmodel::vocab::ALL_EVS {
+        if other != D::EV {
+            probes.extend((0..a.len()).filter(|i| a[*i].ev == other.name()).take(3));
+        }
+    }
     let depth = if cx.tier == Tier::Quick { 3 } else { 4 };
     let at = D::default_at();
     let show = |r: &Run<D::V>| -> String {
